@@ -117,7 +117,7 @@ static void * tbody(void * a) {
     else if (mval[t][k].set && !(live[k] && mval[t][k].inc == incarnation[k])) expected_at_exit[t][k] = -1;   /* key deleted / re-created meanwhile: unspecified */
   }
   if (P.exitmode[t] == E_EXIT) myth_exit((void *)(intptr_t)(t + 1));
-  if (P.exitmode[t] == E_CANCEL) { myth_cancel(myth_self()); myth_testcancel(); mt_fail("myth_testcancel returned although cancellation was requested"); }
+  if (P.exitmode[t] == E_CANCEL) { Z0(myth_cancel(myth_self())); myth_testcancel(); mt_fail("myth_testcancel returned although cancellation was requested"); }
   return (void *)(intptr_t)(t + 1);
 }
 
@@ -193,9 +193,9 @@ static void run_tls(mt_case * c, int prop) {
     memcpy(P.op, op_saved, sizeof op_saved);
     int log0 = ndlog;
     myth_thread_t th[4];
-    for (int t = 0; t < P.NT; t++) myth_create_ex(&th[t], 0, tbody, (void *)(intptr_t)t);
+    for (int t = 0; t < P.NT; t++) Z0(myth_create_ex(&th[t], 0, tbody, (void *)(intptr_t)t));
     for (int t = 0; t < P.NT; t++) {
-      void * rv = 0; myth_join(th[t], &rv); mv_progress();
+      void * rv = 0; Z0(myth_join(th[t], &rv)); mv_progress();
       if (P.exitmode[t] != E_CANCEL && rv != (void *)(intptr_t)(t + 1)) mt_fail("thread %d join value %p", t, rv);
     }
     /* main thread reads: it never stored anything */
@@ -278,8 +278,8 @@ void scen_c10_conc(mt_case * c) {
   mt_hash(c->prog.p, c->prog.pos);
   mt_lib_start(c, &e, 0);
   myth_thread_t th[4];
-  for (int t = 0; t < A.K; t++) myth_create_ex(&th[t], 0, alloc_body, (void *)(intptr_t)t);
-  for (int t = 0; t < A.K; t++) { myth_join(th[t], 0); mv_progress(); }
+  for (int t = 0; t < A.K; t++) Z0(myth_create_ex(&th[t], 0, alloc_body, (void *)(intptr_t)t));
+  for (int t = 0; t < A.K; t++) { Z0(myth_join(th[t], 0)); mv_progress(); }
   mt_lib_finish();
   mt_stat("ops_overlapped", st_overlap);
   if (st_overlap) mt_label("allocator_ops_overlapped");
